@@ -1,6 +1,7 @@
 package props
 
 import (
+	"errors"
 	"bytes"
 	"context"
 	"fmt"
@@ -109,6 +110,9 @@ func c19(tier string) []*explore.Scenario {
 		out = append(out, c19HTTPIdle(pending, bound))
 	}
 	out = append(out, c19HTTPGenerations(3, true, 1), c19HTTPGenerations(3, false, 0), c19HTTPGenerations(6, true, 0))
+	for _, order := range []string{"swept-then-write-fails", "write-fails-then-swept", "two-writes-fail", "write-fails-twice"} {
+		out = append(out, c19HTTPDoubleFailure(order, 2))
+	}
 	out = append(out, c19HTTPTickVsRegistration(bound))
 	out = append(out, c19WebSocket(tier == "thorough"))
 	return out
@@ -1001,6 +1005,103 @@ func c19HTTPGenerations(gens int, samePeer bool, bound int) *explore.Scenario {
 					vsched.Fail(fam+"|idle-not-swept", "generation %d of connections on one GoatOverHttp: idle for 6 minutes (timeout 4, tick every minute) and its blocked reader has not failed (done=%v err=%v)", g, rdone, rerr)
 					return
 				}
+			}
+			goh.Cancel()
+			vsched.Quiesce()
+		},
+	}
+}
+
+type c19FailRT struct{ n int }
+
+func (rt *c19FailRT) RoundTrip(req *http.Request) (*http.Response, error) {
+	rt.n++
+	return nil, errors.New("connect: connection refused")
+}
+
+// c19HTTPDoubleFailure: two failures on the same HTTP connection, in each order: it goes idle
+// past its timeout (the cleaner sweeps it, its blocked reader fails) and a Write on it fails at
+// the HTTP level (the peer is unreachable); or two Writes fail one after the other / at once.
+// Every Read and Write returns an error; nothing panics; the object goes on serving new peers.
+func c19HTTPDoubleFailure(order string, bound int) *explore.Scenario {
+	fam := "C19/http-idle"
+	return &explore.Scenario{
+		Name: "C19/http/double-failure/" + order, Family: fam, Prop: "C19", Bound: bound,
+		Run: func() {
+			clk := env.NewClock()
+			var conns []goat.RpcReadWriter
+			goh := goat.NewGoatOverHttp(func(id string, rw goat.RpcReadWriter) { conns = append(conns, rw) },
+				func(s string) (string, error) { return s, nil },
+				goat.WithClock(clk), goat.WithConnectionCleanupInterval(time.Minute), goat.WithConnectionTimeout(4*time.Minute))
+			old := http.DefaultTransport
+			http.DefaultTransport = &c19FailRT{}
+			defer func() { http.DefaultTransport = old }()
+			vsched.Settle()
+			b, _ := proto.Marshal(&env.Rpc{Id: 1, Header: &goatorepo.RequestHeader{Method: "/a/B", Source: "peer", Destination: "d"}})
+			code := 0
+			vsched.GoNamed("poster", func() { code = post(goh, bytes.NewReader(b)) })
+			vsched.Settle()
+			if len(conns) != 1 {
+				vsched.Fail(fam+"|harness", "no connection announced (status %d)", code)
+				return
+			}
+			conn := conns[0]
+			if _, err := conn.Read(context.Background()); err != nil {
+				vsched.Fail(fam+"|harness", "first read: %v", err)
+				return
+			}
+			vsched.Explore(true)
+			out := &env.Rpc{Id: 7, Header: &goatorepo.RequestHeader{Method: "/a/B", Source: "d", Destination: "peer"}}
+			write := func(name string, done *bool, err *error) {
+				vsched.GoNamed(name, func() { *err = conn.Write(context.Background(), out); *done = true })
+			}
+			var w1, w2, rd bool
+			var e1, e2, er error
+			sweep := func() {
+				vsched.GoNamed("reader", func() { _, er = conn.Read(context.Background()); rd = true })
+				vsched.Quiesce()
+				for i := 0; i < 6; i++ {
+					clk.Advance(time.Minute)
+					vsched.Quiesce()
+				}
+			}
+			switch order {
+			case "swept-then-write-fails":
+				sweep()
+				write("writer1", &w1, &e1)
+				vsched.Quiesce()
+				w2, e2 = true, errors.New("-")
+			case "write-fails-then-swept":
+				write("writer1", &w1, &e1)
+				vsched.Quiesce()
+				sweep()
+				w2, e2 = true, errors.New("-")
+			case "two-writes-fail":
+				write("writer1", &w1, &e1)
+				write("writer2", &w2, &e2)
+				vsched.Quiesce()
+				rd, er = true, errors.New("-")
+			case "write-fails-twice":
+				write("writer1", &w1, &e1)
+				vsched.Quiesce()
+				write("writer2", &w2, &e2)
+				vsched.Quiesce()
+				rd, er = true, errors.New("-")
+			}
+			vsched.Obs("%s: write1 done=%v err=%v | write2 done=%v err=%v | read done=%v err=%v", order, w1, e1, w2, e2, rd, er)
+			if !w1 || !w2 || !rd {
+				vsched.Fail(fam+"|double-failure-hang", "%s: write1 done=%v write2 done=%v read done=%v; threads: %s", order, w1, w2, rd, threadList())
+			}
+			if (w1 && e1 == nil) || (w2 && e2 == nil) || (rd && er == nil) {
+				vsched.Fail(fam+"|double-failure-success", "%s: an operation on the failed connection reported success (write1 %v, write2 %v, read %v)", order, e1, e2, er)
+			}
+			// a new peer is still served
+			b2, _ := proto.Marshal(&env.Rpc{Id: 2, Header: &goatorepo.RequestHeader{Method: "/a/B", Source: "peer2", Destination: "d"}})
+			c2 := 0
+			vsched.GoNamed("poster2", func() { c2 = post(goh, bytes.NewReader(b2)) })
+			vsched.Quiesce()
+			if len(conns) != 2 {
+				vsched.Fail(fam+"|generation-not-announced", "%s: a new peer posted afterwards: %d connections announced (status %d)", order, len(conns), c2)
 			}
 			goh.Cancel()
 			vsched.Quiesce()
